@@ -466,9 +466,10 @@ def _select_units(cat, prop, tier, only=None):
             continue
         if t == "thorough" and tier != "thorough":
             continue
-        # quick tier of a property = the obligations for which it is the primary (first listed)
-        # property + the cheap ones + canaries; the thorough tier runs everything that lists it
-        if tier == "quick" and next(iter(u["props"])) != prop and u.get("cost", 1) > 2 and u.get("expect") != "fail":
+        # a property's tiers hold the obligations for which it is the primary (first listed) property
+        # + the cheap ones + canaries (an obligation that bears on several properties is run, and
+        # counted, under its primary one; the others reference it in DESIGN 0.4)
+        if next(iter(u["props"])) != prop and u.get("cost", 1) > 2 and u.get("expect") != "fail" and not u.get("core"):
             continue
         if t == "quick-only" and tier != "quick":
             continue
@@ -522,7 +523,7 @@ def check(prop, tier, only=None, keep=False):
             jobs = int(os.environ.get("VERIF_JOBS", "0") or 0) or min(12, max(1, len(kani_units)))
             timeout = max(u.get("timeout", 600) for u in kani_units)
             if tier == "thorough":
-                timeout = max(timeout, 3600)
+                timeout = max(timeout, 1800)
             else:
                 # the quick tier only holds obligations measured well below this; a harness that
                 # needs longer on this machine is reported undecided instead of blocking the run
